@@ -219,7 +219,10 @@ func jsonCaseHasData(kase *meta.ChoiceCase, container map[string]interface{}) bo
 
 func jsonKeyMatches(keyFields []meta.Leafable, candidate map[string]interface{}, key []val.Value) bool {
 	for i, field := range keyFields {
-		if fqkGetOrNil(field, candidate) != key[i].String() {
+		// compare typed values, the data may hold a number or boolean where
+		// the key is always given as a typed value
+		v, err := node.NewValue(field.Type(), fqkGetOrNil(field, candidate))
+		if err != nil || !val.Equal(v, key[i]) {
 			return false
 		}
 	}
